@@ -455,7 +455,7 @@ def prove_equal(a, b, assumptions=(), timeout=20, lemma_instances=(), seed=0, la
     return out
 
 
-def discharge_lemmas(timeout=20):
+def discharge_lemmas(timeout=60):
     """The identifications the polynomial normaliser made, decided by the solver.
     Returns (n_ok, n_bad)."""
     ok = bad = 0
@@ -464,8 +464,18 @@ def discharge_lemmas(timeout=20):
         if l.id in seen or l.op == "true":
             continue
         seen.add(l.id)
+        # p == p2 where p2 is p rewritten with recorded squares (s*s == r).  First as an implication
+        # from the facts (short budget: nlsat rarely finishes on many radicals); otherwise the same
+        # argument as stage 3: the rewritten difference is handed to the solver as an identity.
         v, _ = run_z3(tm.to_smt2(list(ST.facts) + [tm.not_(l)],
-                                 comments=["radicand identification using recorded squares"]), timeout)
+                                 comments=["radicand identification using recorded squares"]), min(timeout, 10))
+        if v != "unsat" and l.op == "eq":
+            pd = ring.reduce_squares(tm.to_poly(tm.sub(l.args[0], l.args[1])))
+            if pd is not None:
+                v, _ = run_z3(tm.to_smt2([tm.ne(tm.poly_to_term(pd), tm.const(0))],
+                                         comments=["radicand identification, squares rewritten"]), timeout)
+                if v == "unsat":
+                    STATS["lemmas_by_rewriting"] = STATS.get("lemmas_by_rewriting", 0) + 1
         if v == "unsat":
             ok += 1
         else:
